@@ -6,7 +6,7 @@
 From Coq Require Import List ZArith Bool Arith Lia.
 From SC Require Import Base.Res Base.PyList Inst.Heap Inst.ClassTable Inst.Model Inst.Canon
   Inst.Abs Inst.SpecHelpers Inst.ElemProofs Inst.Framed Inst.RefineProofs Inst.CopyProofs Inst.ElemRefine
-  Inst.ElemRefine2 Inst.ElemRefine3 Inst.ElemRefine4 Inst.ElemRefine5 Inst.ElemRefine6 Inst.ElemRefine7 Inst.ElemRefine8 Inst.ElemRefine9 Inst.ElemRefine10.
+  Inst.ElemRefine2 Inst.ElemRefine3 Inst.ElemRefine4 Inst.ElemRefine5 Inst.ElemRefine6 Inst.ElemRefine7 Inst.ElemRefine8 Inst.ElemRefine9 Inst.ElemRefine10 Inst.ElemRefine11.
 Import ListNotations.
 Open Scope nat_scope.
 
@@ -941,6 +941,126 @@ Section GuardedPrep.
              (set_prep_ok_facts sp xs v Hsp (list_of_set s l a xs Hob) Hok)).
   Qed.
 End GuardedPrep.
+
+(* ------------------------------------------------------------------ *)
+(** * update_<item> through an item preparer, under the guards *)
+
+Definition set_update_ok (ct : ctable) (s : state) (l : loc) (a : aid) (voi v : val) : bool :=
+  match attr_spec_of ct s l a with
+  | Some sp => set_change_ok ct s l a voi (up_pr_p sp v voi)
+  | None => false
+  end.
+
+Section GuardedUpdatePrep.
+  Variable ct : ctable.
+  Variable h0 : list obj.
+  Variable s : state.
+  Variables (l : loc) (a : aid).
+
+  Ltac ipfacts kd H :=
+    destruct (elem_guard_sound ct s l a kd H) as [c [d [k [sp [lc [o [G [Hk [Hsp Hob]]]]]]]]];
+    destruct G as [Gl Gc Ga Gd Gfz Gni Gdep Gfld Glc Go Gflat Gsh].
+  Ltac cpfacts kd H :=
+    destruct (copy_guard_sound ct s l a kd H) as [c [d [k [sp [lc [o [G [Hk [Hsp Hob]]]]]]]]];
+    destruct G as [Gl Gc Ga Gd Gdnc Gpc Gni Gdep Gfld Glc Go Gflat Ginit Ga0].
+
+  Lemma set_update_ok_facts sp xs voi v : attr_spec_of ct s l a = Some sp -> list_of s l a = xs ->
+    set_update_ok ct s l a voi v = true ->
+    ident_on_eq ct xs voi = true /\ (forall v', up_pr_p sp v voi = Ok v' -> set_key_free ct xs v' = true).
+  Proof.
+    unfold set_update_ok. intros -> Hx H. exact (set_change_ok_facts ct s l a xs voi (up_pr_p sp v) Hx H).
+  Qed.
+
+  Theorem update_item_list_prep_guarded voi v bi :
+    elem_guard ct s l a KList = true -> proper_elems s l a = true -> prep_items ct s l a = true -> fail_at s = None ->
+    nonref voi = true -> is_missing voi = false -> nonref v = true ->
+    vscalar v || by_value_ok ct s l a voi bi = true ->
+    refines_spec ct h0 s l (HUpdateItem a) (mkh [voi; v] true true VMissing false bi None [] None)
+                 (SUpdateItem a) (mkah [abs0 voi; abs0 v] true true AMissing false bi None [] None).
+  Proof.
+    intros H Hpe Hp Hfa Hv Hm Hnv Hbv. ipfacts KList H. destruct (prep_items_facts ct s l a sp Hsp Hp) as [P1 P2].
+    destruct (a_ty sp) as [| | | | | | |ity| |ity'|] eqn:Hty; try discriminate Hk.
+    destruct o as [xs| | |]; try discriminate Hk. cbn [item_type] in P2.
+    unfold proper_elems in Hpe. rewrite (list_of_list s l a xs Hob) in Hpe.
+    refine (update_item_list_prep_inplace_refines ct h0 l a c d k sp s lc Gl Gc Ga Gd Gni Gfld Gflat P1 Hfa xs ity Hty P2
+             ltac:(cbn [ty_depth] in Gdep; lia) Glc Hpe voi v bi Gfz Gsh Hv Hm Hnv _).
+    intros Hsv Hb. rewrite Hsv in Hbv. cbn [orb] in Hbv.
+    exact (by_value_ok_facts ct s l a sp ity xs voi bi Hsp Hty (list_of_list s l a xs Hob) Hbv Hb).
+  Qed.
+
+  Theorem update_item_list_prep_copy_guarded voi v bi :
+    copy_guard ct s l a KList = true -> proper_elems s l a = true -> prep_items ct s l a = true -> fail_at s = None ->
+    nonref voi = true -> is_missing voi = false -> nonref v = true ->
+    vscalar v || by_value_ok ct s l a voi bi = true ->
+    copy_refines_spec ct h0 s l (HUpdateItem a) (mkh [voi; v] false true VMissing false bi None [] None)
+                      (SUpdateItem a) (mkah [abs0 voi; abs0 v] false true AMissing false bi None [] None).
+  Proof.
+    intros H Hpe Hp Hfa Hv Hm Hnv Hbv. cpfacts KList H. destruct (prep_items_facts ct s l a sp Hsp Hp) as [P1 P2].
+    destruct (a_ty sp) as [| | | | | | |ity| |ity'|] eqn:Hty; try discriminate Hk.
+    destruct o as [xs| | |]; try discriminate Hk. cbn [item_type] in P2.
+    unfold proper_elems in Hpe. rewrite (list_of_list s l a xs Hob) in Hpe.
+    refine (update_item_list_prep_copy_refines ct h0 l a c d k sp s lc Gl Gc Ga Gd Gni Gfld Gflat P1 Hfa xs ity Hty P2
+             ltac:(cbn [ty_depth] in Gdep; lia) Glc Hpe voi v bi Gdnc Gpc Ginit Ga0 Hv Hm Hnv _).
+    intros Hsv Hb. rewrite Hsv in Hbv. cbn [orb] in Hbv.
+    exact (by_value_ok_facts ct s l a sp ity xs voi bi Hsp Hty (list_of_list s l a xs Hob) Hbv Hb).
+  Qed.
+
+  Theorem update_item_dict_prep_guarded key v :
+    elem_guard ct s l a KDict = true -> dict_vals_proper s l a = true -> prep_items ct s l a = true -> fail_at s = None ->
+    nonref key = true -> is_missing key = false -> nonref v = true ->
+    refines_spec ct h0 s l (HUpdateItem a) (mkh [key; v] true true VMissing false None None [] None)
+                 (SUpdateItem a) (mkah [abs0 key; abs0 v] true true AMissing false None None [] None).
+  Proof.
+    intros H Hvp Hp Hfa Hkey Hm Hnv. ipfacts KDict H. destruct (prep_items_facts ct s l a sp Hsp Hp) as [P1 P2].
+    destruct (a_ty sp) as [| | | | | | | |tk tv| |] eqn:Hty; try discriminate Hk.
+    destruct o as [|kvs| |]; try discriminate Hk. cbn [item_type] in P2.
+    exact (update_item_dict_prep_inplace_refines ct h0 l a c d k sp s lc Gl Gc Ga Gd Gni Gfld Gflat P1 Hfa kvs tk tv Hty P2
+             ltac:(cbn [ty_depth] in Gdep; lia) ltac:(cbn [ty_depth] in Gdep; lia) Glc Go (dvp_facts s l a kvs Hob Hvp)
+             key v Gfz Gsh Hkey Hm Hnv).
+  Qed.
+
+  Theorem update_item_dict_prep_copy_guarded key v :
+    copy_guard ct s l a KDict = true -> dict_vals_proper s l a = true -> prep_items ct s l a = true -> fail_at s = None ->
+    nonref key = true -> is_missing key = false -> nonref v = true ->
+    copy_refines_spec ct h0 s l (HUpdateItem a) (mkh [key; v] false true VMissing false None None [] None)
+                      (SUpdateItem a) (mkah [abs0 key; abs0 v] false true AMissing false None None [] None).
+  Proof.
+    intros H Hvp Hp Hfa Hkey Hm Hnv. cpfacts KDict H. destruct (prep_items_facts ct s l a sp Hsp Hp) as [P1 P2].
+    destruct (a_ty sp) as [| | | | | | | |tk tv| |] eqn:Hty; try discriminate Hk.
+    destruct o as [|kvs| |]; try discriminate Hk. cbn [item_type] in P2.
+    exact (update_item_dict_prep_copy_refines ct h0 l a c d k sp s lc Gl Gc Ga Gd Gni Gfld Gflat P1 Hfa kvs tk tv Hty P2
+             ltac:(cbn [ty_depth] in Gdep; lia) ltac:(cbn [ty_depth] in Gdep; lia) Glc Go (dvp_facts s l a kvs Hob Hvp)
+             key v Gdnc Gpc Ginit Ga0 Hkey Hm Hnv).
+  Qed.
+
+  Theorem update_item_set_prep_guarded voi v :
+    elem_guard ct s l a KSet = true -> prep_items ct s l a = true -> fail_at s = None ->
+    vscalar voi = true -> nonref v = true -> set_update_ok ct s l a voi v = true ->
+    refines_spec ct h0 s l (HUpdateItem a) (mkh [voi; v] true true VMissing false None None [] None)
+                 (SUpdateItem a) (mkah [abs0 voi; abs0 v] true true AMissing false None None [] None).
+  Proof.
+    intros H Hp Hfa Hv Hnv Hok. ipfacts KSet H. destruct (prep_items_facts ct s l a sp Hsp Hp) as [P1 P2].
+    destruct (a_ty sp) as [| | | | | | |ity'| |ity|] eqn:Hty; try discriminate Hk.
+    destruct o as [| |xs|]; try discriminate Hk. cbn [item_type] in P2.
+    destruct (set_update_ok_facts sp xs voi v Hsp (list_of_set s l a xs Hob) Hok) as [Hid Hkf].
+    exact (update_item_set_prep_inplace_refines ct h0 l a c d k sp s lc Gl Gc Ga Gd Gni Gfld Gflat P1 Hfa xs ity Hty P2
+             ltac:(cbn [ty_depth] in Gdep; lia) Glc Go voi v Gfz Gsh Hv Hnv Hid Hkf).
+  Qed.
+
+  Theorem update_item_set_prep_copy_guarded voi v :
+    copy_guard ct s l a KSet = true -> prep_items ct s l a = true -> fail_at s = None ->
+    vscalar voi = true -> nonref v = true -> set_update_ok ct s l a voi v = true ->
+    copy_refines_spec ct h0 s l (HUpdateItem a) (mkh [voi; v] false true VMissing false None None [] None)
+                      (SUpdateItem a) (mkah [abs0 voi; abs0 v] false true AMissing false None None [] None).
+  Proof.
+    intros H Hp Hfa Hv Hnv Hok. cpfacts KSet H. destruct (prep_items_facts ct s l a sp Hsp Hp) as [P1 P2].
+    destruct (a_ty sp) as [| | | | | | |ity'| |ity|] eqn:Hty; try discriminate Hk.
+    destruct o as [| |xs|]; try discriminate Hk. cbn [item_type] in P2.
+    destruct (set_update_ok_facts sp xs voi v Hsp (list_of_set s l a xs Hob) Hok) as [Hid Hkf].
+    exact (update_item_set_prep_copy_refines ct h0 l a c d k sp s lc Gl Gc Ga Gd Gni Gfld Gflat P1 Hfa xs ity Hty P2
+             ltac:(cbn [ty_depth] in Gdep; lia) Glc Go voi v Gdnc Gpc Ginit Ga0 Hv Hnv Hid Hkf).
+  Qed.
+End GuardedUpdatePrep.
 
 (* ------------------------------------------------------------------ *)
 (** * A concrete class and receiver: xs : List[int], m : Dict[str, int], t : Set[int] *)
